@@ -102,8 +102,8 @@ theorem refinedToCoarse_spec {labels refined : List Nat} {kRef : Nat} (hlen : la
 theorem leidenLoop_spec {kernel : Nat → List Nat → List Int × Bool} {refine : Nat → List Nat → List Int}
     {nAgg : Int} (hk : LeidenContract kernel refine) :
     ∀ (fuel count : Nat) (labels a : List Nat), 0 < labels.length → Contiguous a labels.length →
-      leidenLoop kernel refine nAgg fuel count labels (ofLabels a labels.length) = .ok none ∨
-      ∃ a' k count', leidenLoop kernel refine nAgg fuel count labels (ofLabels a labels.length)
+      leidenLoop kernel refine nAgg fuel count labels.length labels (ofLabels a labels.length) = .ok none ∨
+      ∃ a' k count', leidenLoop kernel refine nAgg fuel count labels.length labels (ofLabels a labels.length)
           = .ok (some (ofLabels a' k, count')) ∧
         a'.length = a.length ∧ 0 < k ∧ Contiguous a' k ∧ Coarser a a' := by
   intro fuel
@@ -153,18 +153,14 @@ theorem leidenLoop_spec {kernel : Nat → List Nat → List Int × Bool} {refine
       · right
         exact ⟨a'', k'', c'', h, hl''.trans hlen2, hp'', hc'', hco2.trans hco''⟩
 
-/-- progress clause for Leiden (not proved by C06/C17 for the outer loop; monitored on every run by a contract
-    line): a round that does not raise the stop flag leaves strictly fewer refined clusters than nodes -/
-def LeidenProgress (kernel : Nat → List Nat → List Int × Bool) (refine : Nat → List Nat → List Int) : Prop :=
-  ∀ count labels, (kernel count labels).2 = false →
-    (unique (refine count (inverse (kernel count labels).1))).length < labels.length
-
-/-- ★ under `LeidenContract` and `LeidenProgress` the loop of `Leiden.fit` stops by itself: as many rounds as nodes -/
+/-- ★ under `LeidenContract` the loop of `Leiden.fit` stops by itself, whatever the stop flags are: since the repair
+    b2c73765 a round whose refinement merges nothing (`n == n_previous`) ends the loop, so every continuing round has
+    strictly fewer nodes: as many rounds as nodes suffice -/
 theorem leidenLoop_fuel {kernel : Nat → List Nat → List Int × Bool} {refine : Nat → List Nat → List Int}
-    {nAgg : Int} (hk : LeidenContract kernel refine) (hp : LeidenProgress kernel refine) :
+    {nAgg : Int} (hk : LeidenContract kernel refine) :
     ∀ (fuel count : Nat) (labels a : List Nat), 0 < labels.length → Contiguous a labels.length →
       labels.length ≤ fuel →
-      leidenLoop kernel refine nAgg fuel count labels (ofLabels a labels.length) ≠ .ok none := by
+      leidenLoop kernel refine nAgg fuel count labels.length labels (ofLabels a labels.length) ≠ .ok none := by
   intro fuel
   induction fuel with
   | zero => intro count labels a hn _ h; omega
@@ -188,11 +184,13 @@ theorem leidenLoop_fuel {kernel : Nat → List Nat → List Int × Bool} {refine
     split
     · intro h; cases h
     · rename_i hstop
-      have hflag : (kernel (count + 1) labels).2 = false := by
-        cases hfl : (kernel (count + 1) labels).2 with
-        | false => rfl
-        | true => exfalso; apply hstop; simp [hfl]
-      have hlt : k2 < labels.length := by rw [hk2eq]; exact hp (count + 1) labels hflag
+      have hle : k2 ≤ labels.length := by
+        rw [hk2eq]
+        have := unique_length_le (refine (count + 1) (inverse (kernel (count + 1) labels).1))
+        rw [hrefl] at this; exact this
+      have hne : k2 ≠ labels.length := by
+        intro he; apply hstop; simp [he]
+      have hlt : k2 < labels.length := by omega
       have hrc := inverse_contiguous (refine (count + 1) (inverse (kernel (count + 1) labels).1))
       rw [← hk2eq] at hrc
       have hspec := refinedToCoarse_spec (labels := inverse (kernel (count + 1) labels).1)
@@ -214,7 +212,7 @@ theorem leidenLoop_fuel {kernel : Nat → List Nat → List Int × Bool} {refine
 /-- ★★ total form of `Leiden.fit` -/
 theorem leidenFit_total {argsort : List Int → List Nat} (hs : ∀ key, IsArgsort key (argsort key))
     {kernel : Nat → List Nat → List Int × Bool} {refine : Nat → List Nat → List Int}
-    (hk : LeidenContract kernel refine) (hp : LeidenProgress kernel refine) (nAgg : Int) {fuel N : Nat}
+    (hk : LeidenContract kernel refine) (nAgg : Int) {fuel N : Nat}
     (hN : 0 < N) (hf : N ≤ fuel) (sortClusters shuffle bipartite : Bool) (nRow : Nat) {index : List Nat}
     (hidx : shuffle = true → index.Perm (List.range N)) :
     ∃ f count, leidenFit argsort kernel refine nAgg fuel N index sortClusters shuffle bipartite nRow
@@ -225,7 +223,7 @@ theorem leidenFit_total {argsort : List Int → List Nat} (hs : ∀ key, IsArgso
     rw [List.length_range]
     exact ⟨fun x hx => List.mem_range.mp hx, fun c hc => List.mem_range.mpr hc⟩
   rw [identity_eq]
-  have hne := leidenLoop_fuel (nAgg := nAgg) hk hp fuel 0 (List.range N) (List.range N) (by simpa using hN) hc0
+  have hne := leidenLoop_fuel (nAgg := nAgg) hk fuel 0 (List.range N) (List.range N) (by simpa using hN) hc0
     (by simpa using hf)
   have := leidenLoop_spec (nAgg := nAgg) hk fuel 0 (List.range N) (List.range N) (by simpa using hN) hc0
   rw [List.length_range] at this hne
